@@ -20,12 +20,14 @@ Hdr == Scen[tid]
 
 Running == verdict.v = "run"
 TBInit == /\ tid \in 1..Len(Scen) /\ l = 1
-          /\ verdict = [v |-> "run", line |-> 0, why |-> {}, dev |-> {}]
+          /\ verdict = [v |-> "run", line |-> 0, why |-> {}, dev |-> {}, first |-> {}]
 HasEvent == Running /\ l <= Len(Ev)
 
 Adv == l' = l + 1 /\ UNCHANGED <<tid, verdict>>
 AdvDev(fid) == l' = l + 1 /\ verdict' = [verdict EXCEPT !.dev = @ \cup {fid}] /\ UNCHANGED tid
-Rej(why) == /\ verdict' = [v |-> "REJECT", line |-> l, why |-> why, dev |-> verdict.dev]
+\* `first`: the clauses of the first event that contradicted anything (what follows a contradiction may be its consequence)
+Rej(why) == /\ verdict' = [v |-> "REJECT", line |-> l, why |-> why, dev |-> verdict.dev,
+                           first |-> IF verdict.first = {} THEN why ELSE verdict.first]
             /\ UNCHANGED <<tid, l>>
 Accept == /\ Running /\ l > Len(Ev)
           /\ verdict' = [verdict EXCEPT !.v = "ACCEPT", !.line = l]
@@ -33,7 +35,8 @@ Accept == /\ Running /\ l > Len(Ev)
 
 \* observational mismatches are noted and validation continues; the scenario is rejected at its end
 AdvNote(bad) == /\ l' = l + 1
-                /\ verdict' = [verdict EXCEPT !.why = @ \cup bad, !.line = IF @ = 0 /\ bad # {} THEN l ELSE @]
+                /\ verdict' = [verdict EXCEPT !.why = @ \cup bad, !.line = IF @ = 0 /\ bad # {} THEN l ELSE @,
+                                              !.first = IF @ = {} THEN bad ELSE @]
                 /\ UNCHANGED tid
 Finish == /\ Running /\ l > Len(Ev)
           /\ verdict' = [verdict EXCEPT !.v = IF verdict.why = {} THEN "ACCEPT" ELSE "REJECT",
@@ -44,7 +47,7 @@ Names(S) == {c[1] : c \in {x \in S : x[2]}}   \* S: set of <<clause name, violat
 KnownIds == {Hdr.known[i] : i \in 1..Len(Hdr.known)}
 Known(fid) == fid \in KnownIds
 
-Report == (verdict.v # "run") => PrintT(<<"VERDICT", tid, verdict.v, verdict.line, verdict.why, verdict.dev>>)
+Report == (verdict.v # "run") => PrintT(<<"VERDICT", tid, verdict.v, verdict.line, verdict.why, verdict.dev, verdict.first>>)
 
 SeqSet(q) == {q[i] : i \in 1..Len(q)}
 Has(r, k) == k \in DOMAIN r
